@@ -928,6 +928,10 @@ def main(tier, seed):
         run(ck)
     finally:
         shutil.rmtree(TMP, ignore_errors=True)
+        try:
+            os.rmdir(os.path.dirname(TMP))  # only if no other run is using it
+        except OSError:
+            pass
     return ck.finish()
 
 
